@@ -229,7 +229,9 @@ fn e2e_strategy() -> BoxedStrategy<E2eCase> {
     let t = (
         prop_oneof![5 => Just(0u8), 2 => Just(1u8)],
         prop_oneof![4 => Just(0u8), 1 => Just(1u8), 1 => Just(2u8), 1 => 3u8..=255],
-        proptest::sample::select(vec![9u8, 15, 2, 6, 11]),
+        // signals that are never inherited as ignored (a background job inherits SIGINT / SIGQUIT
+        // ignored, nohup SIGHUP: such a signal would not end the shell)
+        proptest::sample::select(vec![9u8, 15, 6, 11]),
         proptest::option::of(prop_oneof![Just(0u8), Just(1u8), 2u8..=255]),
         vec(proptest::sample::select(PAYLOAD.to_vec()), 0..4),
         vec(proptest::sample::select(PAYLOAD.to_vec()), 0..3),
